@@ -32,8 +32,14 @@ class CoopLock:
         s = STATE["sched"]
         if s is None or not blocking or not s.is_actor_thread():
             return self._l.acquire(blocking, timeout)
+        deadline = None
+        if timeout is not None and timeout >= 0:
+            from .sim import SIM
+
+            deadline = SIM.clock + timeout
         while not self._l.acquire(False):
-            s.block_on(self)
+            if not s.block_on(self, deadline):
+                return False      # timed out in virtual time
         s.note_acquire(self)
         return True
 
@@ -58,9 +64,84 @@ class CoopLock:
     locked_lock = locked
 
 
+_ORIG = {}
+
+
 def install_lock_patch():
-    if threading.Lock is not CoopLock:
-        threading.Lock = CoopLock
+    if threading.Lock is CoopLock:
+        return
+    threading.Lock = CoopLock
+    # Condition.wait / Semaphore / Event / queue build their waiter locks with this name
+    threading._allocate_lock = CoopLock
+    _install_thread_seam()
+
+
+def _install_thread_seam():
+    """threads started by the code under test inside a simulated run become scheduler actors;
+    pure-Python SimpleQueue (its C twin blocks in C); time.sleep passes virtual time"""
+    import queue
+    import time
+
+    _ORIG["start"] = threading.Thread.start
+    _ORIG["join"] = threading.Thread.join
+    _ORIG["is_alive"] = threading.Thread.is_alive
+    _ORIG["sleep"] = time.sleep
+
+    def start(self):
+        s = STATE["sched"]
+        target_mod = getattr(getattr(self, "_target", None), "__module__", "") or ""
+        if s is None or not s.is_actor_thread() or s.aborting \
+                or target_mod.startswith(("asyncio", "fsspec.asyn")) or self.name == "fsspecIO":
+            # infrastructure threads (fsspec's process-wide asyncio I/O loop) stay real threads;
+            # they block in select() and never touch simulated storage
+            return _ORIG["start"](self)
+        if self._started.is_set():
+            raise RuntimeError("threads can only be started once")
+        s.adopt_thread(self)
+
+    def join(self, timeout=None):
+        name = getattr(self, "_sim_actor", None)
+        if name is None:
+            return _ORIG["join"](self, timeout)
+        s = self._sim_sched
+        if STATE["sched"] is s and s.is_actor_thread() and not s.aborting:
+            s.wait_until(lambda: name in s.done)
+
+    def is_alive(self):
+        name = getattr(self, "_sim_actor", None)
+        if name is None:
+            return _ORIG["is_alive"](self)
+        return name not in self._sim_sched.done
+
+    def sleep(seconds):
+        s = STATE["sched"]
+        if s is None or not s.is_actor_thread():
+            return _ORIG["sleep"](seconds)
+        s.sleep(seconds)
+
+    _ORIG["init"] = threading.Thread.__init__
+    counter = [0]
+
+    def init(self, *a, **k):
+        _ORIG["init"](self, *a, **k)
+        s = STATE["sched"]
+        if s is not None and s.is_actor_thread():
+            # Thread objects are kept in sets (ThreadPoolExecutor._threads): an address-based hash
+            # would make their iteration order - and so the join order - differ from run to run
+            s.thread_count_created = getattr(s, "thread_count_created", 0) + 1
+            self._sim_hash = 0x5EED0000 + s.thread_count_created
+
+    def thread_hash(self):
+        h = self.__dict__.get("_sim_hash")
+        return h if h is not None else object.__hash__(self)
+
+    threading.Thread.__init__ = init
+    threading.Thread.__hash__ = thread_hash
+    threading.Thread.start = start
+    threading.Thread.join = join
+    threading.Thread.is_alive = is_alive
+    time.sleep = sleep
+    queue.SimpleQueue = queue._PySimpleQueue
 
 
 def install_repo_path():
